@@ -203,6 +203,10 @@ func matrix(specs []srvSpec) []cell {
 								// HTTP/3 stays under the client's settings): protocol selection must still hold, TCP
 								// handshakes are governed by the caller's configuration, QUIC ones by the client's
 								us := userSpecs[(si*3+ti+force)%len(userSpecs)]
+								if force == 1 {
+									// HTTP/1.1 forced while the caller's TLS offers h2: the hand-off to HTTP/2 must not happen
+									us = userSpecs[[]int{0, 4, 6, 7}[(si+ti)%4]]
+								}
 								kind := []string{"dialtls", "handshake"}[(si+ti+force)%2]
 								on := []op{{K: kind, TLS: &us}}
 								off := []op{{K: kind, TLS: &tlsSpec{Nil: true}}}
